@@ -19,10 +19,14 @@ CREATE_J = "CREATE TABLE IF NOT EXISTS j (n INTEGER PRIMARY KEY, id TEXT);"
 # --------------------------------------------------------------------------------------------------------
 # reference model (appendix A)
 # --------------------------------------------------------------------------------------------------------
-def pending(files, revs, order="linear", baseline=None, allow_dirty=False, dirty=False):
+def pending(files, revs, order="linear", baseline=None, allow_dirty=False, dirty=False, inner_partial_applied=False):
     """files: [(version, is_checkpoint)] sorted by version;  revs: [(version, partial)] sorted by version.
     Returns {"kind": ok|nopending|notclean|nobaseline|missing|nonlinear, "pending": [...], "ooo": [...]}.
-    Versions are fixed-width strings; comparison is lexicographic."""
+    Versions are fixed-width strings; comparison is lexicographic.
+    A partially applied revision that is NOT the last one (a file run out of order by a non-linear apply failed
+    partway) is not applied: its file is inside the out-of-order window and handled per exec-order (non-linear
+    resumes it first).  inner_partial_applied=True is the other reading (such a revision counts as applied); it is
+    only used to NAME a disagreement, never to accept one."""
     migs = [f for f in files if not f[1]]
 
     def fin(p):
@@ -40,7 +44,7 @@ def pending(files, revs, order="linear", baseline=None, allow_dirty=False, dirty
         cks = [i for i, f in enumerate(files) if f[1]]
         return fin(files if not cks else files[cks[-1]:])
     lver, lpartial = revs[-1]
-    recorded = {r[0] for r in revs}
+    recorded = {r[0] for i, r in enumerate(revs) if inner_partial_applied or not r[1] or i == len(revs) - 1}
     if lpartial:
         F = [f for f in files if f[0] == lver]
         if not F:
@@ -65,12 +69,12 @@ def pending(files, revs, order="linear", baseline=None, allow_dirty=False, dirty
 
 
 def in_domain(files, revs):
-    """Claimed domain (DESIGN §4 C11, S): revisions sorted (given), only the last one partial, a checkpoint
-    version only as the first revision. Returns None or the name of the class that leaves the domain."""
+    """Claimed domain (DESIGN §4 C11, S): revisions sorted (given), a checkpoint version only as the first revision.
+    (A partial revision that is not the last one used to be excluded too; it is reachable by plain operations -- an
+    out-of-order file failing under --exec-order non-linear -- and is now part of the model.)
+    Returns None or the name of the class that leaves the domain."""
     cks = {f[0] for f in files if f[1]}
     for i, (v, partial) in enumerate(revs):
-        if partial and i != len(revs) - 1:
-            return "partial-not-last"
         if v in cks and i != 0:
             return "checkpoint-not-first-revision"
     return None
